@@ -27,7 +27,9 @@ func init() { commands["c03"] = c03Run }
 
 const c03HeaderLimit = 300 * time.Millisecond
 
-var c03Routes = []string{"direct", "http", "https", "socks5", "connectfunc", "upgrade"}
+// tlsboth: TLS listener and https upstream - neither end of the tunnel is a plain TCP connection, so the copy
+// goes through the buffered path and not through splice / ReadFrom
+var c03Routes = []string{"direct", "http", "https", "socks5", "connectfunc", "upgrade", "tlsboth"}
 
 type nameTable struct {
 	mu sync.Mutex
@@ -203,6 +205,7 @@ type c03Case struct {
 	Early  bool     `json:"early"`
 	Tearly bool     `json:"tearly"`
 	Pause  bool     `json:"pause"`
+	Par    bool     `json:"par"`
 }
 
 var c03Sizes = []int{1, 100, 4097, 32768, 32769, 70001, 1 << 20, 3 << 20}
@@ -308,6 +311,14 @@ func runReader(r io.Reader, side string, lg *evlog, blocks func(i int) []byte, m
 	return br
 }
 
+// plainRWC hides everything but Read / Write / Close / CloseWrite of a TCP connection.
+type plainRWC struct{ c *net.TCPConn }
+
+func (p plainRWC) Read(b []byte) (int, error)  { return p.c.Read(b) }
+func (p plainRWC) Write(b []byte) (int, error) { return p.c.Write(b) }
+func (p plainRWC) Close() error                { return p.c.Close() }
+func (p plainRWC) CloseWrite() error           { return p.c.CloseWrite() }
+
 type c03Env struct {
 	seed   int64
 	names  *nameTable
@@ -333,6 +344,9 @@ func newC03Env(seed int64) *c03Env {
 			fc.Upstream = "http://" + addrA
 		case "https":
 			fc.Upstream = "https://" + addrB
+		case "tlsboth":
+			fc.Upstream = "https://" + addrB
+			fc.TLS = true
 		case "socks5":
 			fc.Upstream = "socks5://" + addrC
 		case "connectfunc":
@@ -347,7 +361,8 @@ func newC03Env(seed int64) *c03Env {
 				}
 				res := &http.Response{StatusCode: 200, Status: "200 OK", Proto: "HTTP/1.1", ProtoMajor: 1, ProtoMinor: 1,
 					Header: http.Header{}, Body: http.NoBody, ContentLength: -1, Request: req}
-				return res, c, nil
+				// a custom ReadWriteCloser (no ReadFrom / WriteTo): the copy uses the proxy's own buffers
+				return res, plainRWC{c.(*net.TCPConn)}, nil
 			}
 		}
 		f, err := startFwd(fc)
@@ -397,7 +412,9 @@ func c03Run(e *env) {
 	for i := range cases {
 		for ri, route := range c03Routes {
 			// every case runs on one route per pass; quick tiers rotate routes, "allroutes" runs them all
-			if e.args["allroutes"] != "1" && ri != i%len(c03Routes) {
+			// concurrent bulk schedules always also run where the proxy copies through its own buffers
+			buffered := cases[i].Par && (route == "tlsboth" || route == "connectfunc")
+			if e.args["allroutes"] != "1" && ri != i%len(c03Routes) && !buffered {
 				continue
 			}
 			i, route := i, route
@@ -416,7 +433,7 @@ func c03Run(e *env) {
 }
 
 func (env *c03Env) scenario(idx int, route string, c *c03Case) map[string]any {
-	res := map[string]any{"ok": true, "idx": idx, "route": route, "sched": c.Sched, "early": c.Early, "tearly": c.Tearly, "pause": c.Pause}
+	res := map[string]any{"ok": true, "idx": idx, "route": route, "sched": c.Sched, "early": c.Early, "tearly": c.Tearly, "pause": c.Pause, "par": c.Par}
 	lg := &evlog{}
 	fail := func(why string) {
 		if res["ok"] == true {
@@ -434,6 +451,10 @@ func (env *c03Env) scenario(idx int, route string, c *c03Case) map[string]any {
 	}
 	cBlock := func(i int) []byte { return c03Block(env.seed, idx, "c", i) }
 	tBlock := func(i int) []byte { return c03Block(env.seed, idx, "t", i) }
+	if c.Par {
+		cBlock = func(i int) []byte { return payload(env.seed, fmt.Sprintf("cp-%d-%d", idx, i), 1<<20+4099*i+17) }
+		tBlock = func(i int) []byte { return payload(env.seed, fmt.Sprintf("tp-%d-%d", idx, i), 1<<20+8191*i+5) }
+	}
 	// target
 	tln, err := net.Listen("tcp", "127.0.0.1:0")
 	if err != nil {
@@ -509,11 +530,22 @@ func (env *c03Env) scenario(idx int, route string, c *c03Case) map[string]any {
 		tw = 1
 	}
 
-	cl, err := net.DialTimeout("tcp", env.fwds[route].addr, 5*time.Second)
+	var cl net.Conn
+	cl, err = net.DialTimeout("tcp", env.fwds[route].addr, 5*time.Second)
 	if err != nil {
 		fatal("dial proxy: %v", err)
 	}
-	defer cl.Close()
+	defer func() { cl.Close() }()
+	if route == "tlsboth" {
+		tcl := tls.Client(cl, &tls.Config{InsecureSkipVerify: true})
+		cl.SetDeadline(time.Now().Add(5 * time.Second))
+		if err := tcl.Handshake(); err != nil {
+			fail("TLS handshake with the proxy: " + err.Error())
+			return res
+		}
+		cl.SetDeadline(time.Time{})
+		cl = tcl
+	}
 	var head []byte
 	if route == "upgrade" {
 		head = []byte("GET http://" + strings.TrimSuffix(tname, ":80") + "/ws HTTP/1.1\r\nHost: " + strings.TrimSuffix(tname, ":80") + "\r\nConnection: Upgrade\r\nUpgrade: websocket\r\n\r\n")
@@ -580,7 +612,7 @@ func (env *c03Env) scenario(idx int, route string, c *c03Case) map[string]any {
 			}
 		case "cs":
 			lg.add("cs")
-			cl.(*net.TCPConn).CloseWrite()
+			cl.(interface{ CloseWrite() error }).CloseWrite()
 			cShut = true
 			waitEOF(tRd, "target")
 		case "ts":
@@ -593,21 +625,49 @@ func (env *c03Env) scenario(idx int, route string, c *c03Case) map[string]any {
 	if c.Pause {
 		time.Sleep(c03HeaderLimit * 3 / 2)
 	}
-	for i, a := range sched {
-		if (earlyC && i == firstC) || (earlyT && i == firstT) {
-			continue
+	if c.Par {
+		// both endpoints run their own program concurrently; each keeps its order
+		var pw sync.WaitGroup
+		var fmu sync.Mutex
+		inner := fail
+		fail = func(why string) { fmu.Lock(); inner(why); fmu.Unlock() }
+		for _, side := range []byte{'c', 't'} {
+			side := side
+			pw.Add(1)
+			go func() {
+				defer pw.Done()
+				for i, a := range sched {
+					if a[0] != side || (earlyC && i == firstC) || (earlyT && i == firstT) {
+						continue
+					}
+					step(a)
+				}
+				if side == 'c' && !cShut {
+					step("cs")
+				}
+				if side == 't' && !tShut {
+					step("ts")
+				}
+			}()
 		}
-		step(a)
-		if res["ok"] != true {
-			break
+		pw.Wait()
+	} else {
+		for i, a := range sched {
+			if (earlyC && i == firstC) || (earlyT && i == firstT) {
+				continue
+			}
+			step(a)
+			if res["ok"] != true {
+				break
+			}
 		}
-	}
-	if res["ok"] == true {
-		if !cShut {
-			step("cs")
-		}
-		if !tShut {
-			step("ts")
+		if res["ok"] == true {
+			if !cShut {
+				step("cs")
+			}
+			if !tShut {
+				step("ts")
+			}
 		}
 	}
 	<-waitOr(cRd.eofCh, 10*time.Second)
